@@ -44,6 +44,26 @@ Proof.
         -- right. exists f. exact H.
 Qed.
 
+Lemma valid_inside : forall o h w p, paint_valid o h w p -> paint_inside o h w p.
+Proof. intros o h w [r c f ch|r c f n]; simpl; intros; lia. Qed.
+
+Lemma img_paints_conform : forall o h w nw r0 c0 f i p,
+  Good o h w nw ->
+  (exists x, gget nw r0 c0 = Some x /\ ckind x = KImg i /\ cface x = f) ->
+  In p (img_paints o h w r0 c0 f i) ->
+  conform o (den o h w nw) (fun _ _ => false) p /\ paint_inside o h w p.
+Proof.
+  intros o h w nw r0 c0 f i p GN (x & Hx & Hk & Hf) Hin. unfold img_paints in Hin.
+  apply in_map_iff in Hin. destruct Hin as (row & <- & Hrow). apply in_seq in Hrow.
+  assert (Hb : r0 < h /\ c0 < w) by (exact (gget_some_bounds nw h w r0 c0 x (good_dims _ _ _ _ GN) Hx)).
+  split.
+  - simpl. intros j Hj. right.
+    apply (den_under_img o h w nw GN r0 c0 f i); try lia.
+    + apply img_at_some. eauto.
+    + unfold in_rect. apply andb_true_iff. rewrite !in_range_true. lia.
+  - simpl. lia.
+Qed.
+
 Section OneFrame.
   Variable o : oracle.
   Variables h w : nat.
@@ -72,25 +92,6 @@ Section OneFrame.
     destruct (conform_row o h w u old nw M dec cmds imgs Hsp Gold GN Hu HP r rn ro rm Hr Hrn Hro Hrm p Hin)
       as (H1 & H2 & _).
     split; [exact H1|exact H2].
-  Qed.
-
-  Lemma valid_inside : forall p, paint_valid o h w p -> paint_inside o h w p.
-  Proof. intros [r c f ch|r c f n]; simpl; intros; lia. Qed.
-
-  Lemma img_paints_conform : forall r0 c0 f i p,
-    (exists x, gget nw r0 c0 = Some x /\ ckind x = KImg i /\ cface x = f) ->
-    In p (img_paints o h w r0 c0 f i) ->
-    conform o T (fun _ _ => false) p /\ paint_inside o h w p.
-  Proof.
-    intros r0 c0 f i p (x & Hx & Hk & Hf) Hin. unfold img_paints in Hin.
-    apply in_map_iff in Hin. destruct Hin as (row & <- & Hrow). apply in_seq in Hrow.
-    assert (Hb : r0 < h /\ c0 < w) by (eapply gget_some_bounds; eauto; apply GN).
-    split.
-    - simpl. intros j Hj. right. unfold T.
-      apply (den_under_img o h w nw GN r0 c0 f i); try lia.
-      + apply img_at_some. eauto.
-      + unfold in_rect. apply andb_true_iff. rewrite !in_range_true. lia.
-    - simpl. lia.
   Qed.
 
   Theorem frame_exec : forall scr,
@@ -150,10 +151,10 @@ Section OneFrame.
       + apply Hs2.
       + apply Forall_forall. intros p Hp. unfold imgs_paints in Hp. apply in_flat_map in Hp.
         destruct Hp as ([[[r0 c0] f] i] & Hin & Hp). apply (sp_imgs HP) in Hin.
-        destruct Hin as (x & Hx & Hk & Hf & _). eapply img_paints_conform; eauto.
+        destruct Hin as (x & Hx & Hk & Hf & _). eapply (img_paints_conform o h w nw); eauto.
       + apply Forall_forall. intros p Hp. unfold imgs_paints in Hp. apply in_flat_map in Hp.
         destruct Hp as ([[[r0 c0] f] i] & Hin & Hp). apply (sp_imgs HP) in Hin.
-        destruct Hin as (x & Hx & Hk & Hf & _). eapply img_paints_conform; eauto.
+        destruct Hin as (x & Hx & Hk & Hf & _). eapply (img_paints_conform o h w nw); eauto.
       + destruct (redrawn o h w nw dec r c) eqn:Ered.
         * right. unfold redrawn in Ered.
           destruct (cover_img o h w nw r c) as [[r0 c0]|] eqn:Ecov; [|discriminate].
